@@ -15,6 +15,7 @@ const (
 	verifHsAfterAllocIndex
 	verifFwAfterInConnsMiss
 	verifCmBeforeSwapPrimary
+	verifHsBeforeContinueLock
 )
 
 var verifHook atomic.Pointer[func(id int)]
